@@ -36,7 +36,7 @@ ASSUMPTIONS = [
     "ordering rulebooks of part P have sibling rules with pairwise disjoint languages; %order_reverse rules are written in "
     "negated form and never overlap a plain rule",
 ]
-BUDGET = {"quick": 60, "thorough": 900}
+BUDGET = {"quick": 150, "thorough": 900}
 
 VENDOR_PREFIX = {"huawei": "undo", "cisco": "no"}
 
